@@ -514,4 +514,174 @@ def sizeInit (B : Nat) (p : PairSpec α) : Comp Nat (List Nat) :=
   ⟨sizeCfg p, Pair.init (sizeCfg p) (Tracker.mk' 0 p.sendIdx 1) (Tracker.mk' 0 p.recvIdx 1) B
      (List.replicate p.recvIdx.length 0)⟩
 
+
+/-! ### rank level: `communicateVariableSize` on all ranks at once
+
+Every rank runs `communicateSizes` (the size loop `while(size_to_send+size_to_recv)`), then `setupRequests` for the data
+and the data loop `while(no_to_send+no_to_recv)`, then returns — each rank at its own pace.  The state of the whole
+communication is: per rank its program position and the two counters of its current loop; per directed neighbour
+relation src → dst (a *link*) the size-phase machine and the data-phase machine of that relation (`Pair`), where the two
+sides of the data-phase machine are started separately, when the respective rank leaves its size loop.  Size messages
+and data messages of a link travel with the same tag on the same communicator, i.e. through **one** FIFO: the physical
+channel is `sz.chan ++ dt.chan`, and `LinkSt.confusable` describes the states in which MPI would match a message of
+one phase with a receive posted by the other. -/
+
+structure LinkSpec (α : Type) where
+  src : Nat
+  dst : Nat
+  /-- the data handle of rank `src` -/
+  h : Handle α
+  /-- `src`'s list for `dst` (first list for forward, second for backward) -/
+  sendIdx : List Nat
+  /-- `dst`'s list for `src` -/
+  recvIdx : List Nat
+
+def LinkSpec.pair (l : LinkSpec α) : PairSpec α := ⟨l.h, 0, l.sendIdx, l.recvIdx⟩
+
+structure LinkSt (α : Type) where
+  sz : Pair Nat (List Nat)
+  dt : Pair α (List (Call α))
+  /-- rank `src` has left its size loop and run `setupRequests(…, SetupSendRequest)` for the data -/
+  sStarted : Bool
+  /-- rank `dst` has left its size loop and run `setupRequests(…, SetupRecvRequest)` for the data -/
+  rStarted : Bool
+
+/-- the data-phase machine before either side has started: no request, nothing in flight -/
+def Pair.blank {σ} (acc : σ) : Pair α σ :=
+  { st := Tracker.mk' 0 [], sb := MessageBuffer.new 0, sreq := .null, sendOpen := false, chan := [],
+    rt := Tracker.mk' 0 [], rb := MessageBuffer.new 0, rreq := .null, recvOpen := false, acc }
+
+/-- the sender's half of `Pair.init`: `SetupSendRequest` on the fresh send tracker -/
+def startSend {σ} (B : Nat) (p : PairSpec α) (x : Pair α σ) : Pair α σ :=
+  let s := setupSend p.h (Tracker.mk' 0 p.sendIdx p.f) (MessageBuffer.new B)
+  { x with st := s.tracker, sb := s.buffer, sreq := if s.message.isSome then .active else .null,
+           sendOpen := s.message.isSome, chan := s.message.toList }
+
+/-- the receiver's half of `Pair.init` for a variable-size handle: the receive tracker carries the size array that
+    `communicateSizes` has filled (`sizes`), then `SetupRecvRequest` -/
+def startRecv (B : Nat) (p : PairSpec α) (sizes : List Nat) (x : Pair α (List (Call α))) : Pair α (List (Call α)) :=
+  let rt : Tracker := { Tracker.mk' 0 p.recvIdx 0 true with sizes := sizes }
+  let r := setupRecv (β := α) true rt (MessageBuffer.new B)
+  { x with rt := r.1, rb := r.2.1, rreq := if r.2.2 then .posted else .null, recvOpen := r.2.2, acc := [] }
+
+def RecvReq.isPosted {β : Type} : RecvReq β → Bool
+  | .posted => true
+  | _ => false
+
+/-- MPI could match a size message with a posted data receive, or a data message with a posted size receive -/
+def LinkSt.confusable (x : LinkSt α) : Bool :=
+  (!x.sz.chan.isEmpty && x.dt.rreq.isPosted) || (x.sz.chan.isEmpty && !x.dt.chan.isEmpty && x.sz.rreq.isPosted)
+
+structure VarSys (α : Type) where
+  /-- per rank: 0 = in the size loop, 1 = in the data loop, 2 = `forward`/`backward` has returned -/
+  phase : List Nat
+  /-- per rank: `size_to_send` resp. `no_to_send` of the loop the rank is in -/
+  toSend : List Nat
+  /-- per rank: `size_to_recv` resp. `no_to_recv` -/
+  toRecv : List Nat
+  links : List (LinkSt α)
+
+/-- number of links (position by position with their descriptions) that satisfy `sel` -/
+def countSel (sel : LinkSpec α → LinkSt α → Bool) : List (LinkSpec α) → List (LinkSt α) → Nat
+  | l :: ls, x :: xs => (if sel l x then 1 else 0) + countSel sel ls xs
+  | _, _ => 0
+
+/-- `count_if(requests, valid)` of rank `p` after a `setupRequests`: its links whose request is not null -/
+def sizeSendOpen (p : Nat) (l : LinkSpec α) (x : LinkSt α) : Bool := l.src == p && x.sz.sendOpen
+def sizeRecvOpen (p : Nat) (l : LinkSpec α) (x : LinkSt α) : Bool := l.dst == p && x.sz.recvOpen
+def dataSendOpen (p : Nat) (l : LinkSpec α) (x : LinkSt α) : Bool := l.src == p && x.dt.sendOpen
+def dataRecvOpen (p : Nat) (l : LinkSpec α) (x : LinkSt α) : Bool := l.dst == p && x.dt.recvOpen
+
+inductive GAct where
+  /-- an action of the size-phase machine of link `i` -/
+  | size (i : Nat) (a : Action)
+  /-- an action of the data-phase machine of link `i` -/
+  | data (i : Nat) (a : Action)
+  /-- rank `p` finds `size_to_send+size_to_recv == 0`, leaves `communicateSizes`, sets up its data requests and counts
+      the valid ones -/
+  | advance (p : Nat)
+  /-- rank `p` finds `no_to_send+no_to_recv == 0` and returns -/
+  | ret (p : Nat)
+deriving Repr, DecidableEq
+
+/-- `counter -= 1` if the reported request closed its neighbour (tracker finished), as `checkAndContinue` returns it -/
+def decIf (closed : Bool) (p : Nat) (cs : List Nat) : List Nat :=
+  if closed then cs.set p (cs.getD p 0 - 1) else cs
+
+/-- the data side(s) of link `l` that rank `p` starts when it leaves its size loop -/
+def advanceLink (B p : Nat) (l : LinkSpec α) (x : LinkSt α) : LinkSt α :=
+  let x := if l.src = p then { x with dt := startSend B l.pair x.dt, sStarted := true } else x
+  if l.dst = p then { x with dt := startRecv B l.pair x.sz.acc x.dt, rStarted := true } else x
+
+def varStep (B : Nat) (specs : List (LinkSpec α)) (g : VarSys α) : GAct → Option (VarSys α)
+  | .size i a =>
+    match specs[i]?, g.links[i]? with
+    | some l, some x =>
+      match a with
+      | .deliver => (Pair.step (sizeCfg l.pair) x.sz .deliver).map fun s' => { g with links := g.links.set i { x with sz := s' } }
+      | .sendDone =>
+        -- `if(size_to_send) size_to_send -= checkSendAndContinueSending(…)` of rank `src`, which is in its size loop
+        if g.phase.getD l.src 3 = 0 ∧ g.toSend.getD l.src 0 ≠ 0 then
+          (Pair.step (sizeCfg l.pair) x.sz .sendDone).map fun s' =>
+            { g with links := g.links.set i { x with sz := s' },
+                     toSend := decIf (x.sz.sendOpen && !s'.sendOpen) l.src g.toSend }
+        else none
+      | .recvDone =>
+        if g.phase.getD l.dst 3 = 0 ∧ g.toRecv.getD l.dst 0 ≠ 0 then
+          (Pair.step (sizeCfg l.pair) x.sz .recvDone).map fun s' =>
+            { g with links := g.links.set i { x with sz := s' },
+                     toRecv := decIf (x.sz.recvOpen && !s'.recvOpen) l.dst g.toRecv }
+        else none
+    | _, _ => none
+  | .data i a =>
+    match specs[i]?, g.links[i]? with
+    | some l, some x =>
+      match a with
+      | .deliver =>
+        -- one FIFO per link and tag: a data message is matched only when no size message is ahead of it
+        if x.sz.chan.isEmpty then
+          (Pair.step (dataCfg l.pair) x.dt .deliver).map fun s' => { g with links := g.links.set i { x with dt := s' } }
+        else none
+      | .sendDone =>
+        if g.phase.getD l.src 3 = 1 ∧ g.toSend.getD l.src 0 ≠ 0 then
+          (Pair.step (dataCfg l.pair) x.dt .sendDone).map fun s' =>
+            { g with links := g.links.set i { x with dt := s' },
+                     toSend := decIf (x.dt.sendOpen && !s'.sendOpen) l.src g.toSend }
+        else none
+      | .recvDone =>
+        if g.phase.getD l.dst 3 = 1 ∧ g.toRecv.getD l.dst 0 ≠ 0 then
+          (Pair.step (dataCfg l.pair) x.dt .recvDone).map fun s' =>
+            { g with links := g.links.set i { x with dt := s' },
+                     toRecv := decIf (x.dt.recvOpen && !s'.recvOpen) l.dst g.toRecv }
+        else none
+    | _, _ => none
+  | .advance p =>
+    if p < g.phase.length ∧ g.phase.getD p 3 = 0 ∧ g.toSend.getD p 0 + g.toRecv.getD p 0 = 0 then
+      let links := List.zipWith (advanceLink B p) specs g.links
+      some { phase := g.phase.set p 1,
+             toSend := g.toSend.set p (countSel (dataSendOpen p) specs links),
+             toRecv := g.toRecv.set p (countSel (dataRecvOpen p) specs links),
+             links }
+    else none
+  | .ret p =>
+    if p < g.phase.length ∧ g.phase.getD p 3 = 1 ∧ g.toSend.getD p 0 + g.toRecv.getD p 0 = 0 then
+      some { g with phase := g.phase.set p 2 }
+    else none
+
+def varExec (B : Nat) (specs : List (LinkSpec α)) : VarSys α → List GAct → Option (VarSys α)
+  | g, [] => some g
+  | g, a :: as => (varStep B specs g a).bind fun g' => varExec B specs g' as
+
+/-- all `n` ranks have entered `communicateSizes` and run its two `setupRequests` -/
+def varInit (B n : Nat) (specs : List (LinkSpec α)) : VarSys α :=
+  let links := specs.map fun l => ({ sz := (sizeInit B l.pair).state, dt := Pair.blank [], sStarted := false, rStarted := false } : LinkSt α)
+  { phase := List.replicate n 0,
+    toSend := (List.range n).map fun p => countSel (sizeSendOpen p) specs links,
+    toRecv := (List.range n).map fun p => countSel (sizeRecvOpen p) specs links,
+    links }
+
+/-- every rank has returned, and nothing of any link is left in flight or half done -/
+def VarSys.final (g : VarSys α) : Bool :=
+  g.phase.all (· == 2) && g.links.all fun x => x.sz.final && x.dt.final
+
 end DV.C06
